@@ -83,6 +83,14 @@ class C13(Prop):
                 ['mdev', 'timezone', 'Asia/Tokyo'], ['mwebhooks', 'enabled', True], ['mreverse', 'enabled', True],
                 ['rvalue', 'p1', 11], ['wait', 130], ['up'], ['await_online'], ['check'], ['rvalue', 'p1', 12],
                 ['check']]})
+        # a check right after a burst: the value-change of p2 is handled only after the value fetch of the port added
+        # in the same listen response (0.4 s round trip): the check has to wait until the master is back in its long-poll
+        out.append({'mode': 'listen', 'latency': 0.2, 'fail': 'refused', 'poll': 2, 'ports': [
+            {'id': 'p1', 'type': 'number', 'value': 27, 'writable': True, 'enabled': True, 'custom': 'green'},
+            {'id': 'p2', 'type': 'boolean', 'value': True, 'writable': False, 'enabled': True, 'custom': None}],
+            'steps': [['rattr', 'p1', 'unit', 'V'], ['wait', 0.06], ['radd', 'x2', 'number', 5], ['rvalue', 'p2', False],
+                      ['check'], ['down'], ['await_offline'], ['mattr', 'p1', 'display_name', 'k'], ['wait', 5], ['up'],
+                      ['await_online'], ['check']]})
         return out
 
     def gen(self, rng, tier):
